@@ -25,6 +25,7 @@ package x25
 //@   ensures  x.crc == crcFold(old(x.crc), p, len(p))
 //@   canary   x.crc == old(x.crc)
 //@   modifies x.crc
+//@   option unfold-crcfold
 //@   loop 0 bind i int = rangeindex
 //@   loop 0 invariant -1 <= i && i < len(p)
 //@   loop 0 invariant x.crc == crcFold(old(x.crc), p, i+1)
